@@ -984,7 +984,7 @@ impl Model {
         if let Op::ReplaceChild { recv, new, old, .. } = &step.op {
             if let (Some(MSlot::Run(r)), Some(rm), false) = (self.slot(*old), self.node_slot(*recv), self.stale(*recv) || self.stale(*new)) {
                 let new_is_piece = self.node_slot(*new).map(|n| r.contains(&n)).unwrap_or(true);
-                if self.stale(*old) && !new_is_piece && !r.is_empty() && r.iter().any(|p| self.nodes[*p].parent != Some(rm)) {
+                if self.stale(*old) && !new_is_piece && self.nodes[rm].kind == Kind::Element && !r.is_empty() && r.iter().any(|p| self.nodes[*p].parent != Some(rm)) {
                     let mut p = Plan::fail(vec![ErrClass::NotFound, ErrClass::Hierarchy, ErrClass::WrongDoc, ErrClass::NotSupported]);
                     p.illegal = true;
                     return p;
@@ -994,7 +994,7 @@ impl Model {
         // the same for remove_child: a merged text node one of whose pieces has left the receiver is not a child
         if let Op::RemoveChild { recv, old, .. } = &step.op {
             if let (Some(MSlot::Run(r)), Some(rm), false) = (self.slot(*old), self.node_slot(*recv), self.stale(*recv)) {
-                if self.stale(*old) && !r.is_empty() && r.iter().any(|p| self.nodes[*p].parent != Some(rm)) {
+                if self.stale(*old) && self.nodes[rm].kind == Kind::Element && !r.is_empty() && r.iter().any(|p| self.nodes[*p].parent != Some(rm)) {
                     let mut p = Plan::fail(vec![ErrClass::NotFound, ErrClass::Hierarchy, ErrClass::WrongDoc, ErrClass::NotSupported]);
                     p.illegal = true;
                     return p;
